@@ -3,7 +3,7 @@
     symbol-table keys; the invariance of whole executions under renaming is established by the
     renaming oracle and the correspondence (see the evidence), not by a theorem. *)
 From Coq Require Import List ZArith NArith Bool.
-From RRSS Require Import Base.Outcome Base.Chars Front.Ast Front.Token Exec.Env Proofs.NameLaws.
+From RRSS Require Import Base.Outcome Base.Chars Front.Ast Front.Token Exec.Val Exec.Env Exec.Interp Proofs.NameLaws Proofs.RenameSim.
 Import ListNotations.
 
 (** the key of a name is its lower-casing, word by word — for every Unicode letter (table facts
@@ -37,6 +37,50 @@ Theorem C15_keyword_case_insensitive :
   forall w1 w2, str_to_lowercase w1 = str_to_lowercase w2 -> match_keyword w1 = match_keyword w2.
 Proof. exact keyword_case_insensitive. Qed.
 
+(** Renaming never changes behaviour.  [rho] renames spelled names; it is consistent when it acts on
+    symbol-table keys through a map [kappa] that keeps distinct keys distinct.  Then the renamed program
+    (every variable, parameter, function name and call renamed by [rn_program rho]) run on the same
+    input is, for every fuel and in both profiles, the renamed run: same outcome class, same control
+    state and return value, same output bytes, same input consumed, same budgets; a runtime error is the
+    same error with the names it mentions renamed ([xres_rel], [env_rel]: related scopes key by key). *)
+Theorem C15_rename_invariance :
+  forall (rho kappa : varname -> varname),
+    (forall n, lower_name (rho n) = kappa (lower_name n)) ->
+    (forall a b, varname_eqb (kappa a) (kappa b) = varname_eqb a b) ->
+    forall prof fuel p c,
+      xres_rel rho kappa eq (exec_program prof fuel p c) (exec_program prof fuel (rn_program rho p) c).
+Proof. exact rename_invariance. Qed.
+
+Theorem C15_rename_same_output :
+  forall (rho kappa : varname -> varname),
+    (forall n, lower_name (rho n) = kappa (lower_name n)) ->
+    (forall a b, varname_eqb (kappa a) (kappa b) = varname_eqb a b) ->
+    forall prof fuel p c,
+      match exec_program prof fuel p c, exec_program prof fuel (rn_program rho p) c with
+      | XOk xs e, XOk xs' e' => xs' = xs /\ chan e' = chan e
+      | XErr x e, XErr x' e' => x' = rn_err rho x /\ chan e' = chan e
+      | XPanic s, XPanic s' => s' = s
+      | XUB s, XUB s' => s' = s
+      | XOutOfFuel, XOutOfFuel => True
+      | XOverBudget, XOverBudget => True
+      | _, _ => False
+      end.
+Proof. exact rename_same_output. Qed.
+
+(** re-casing names (any respelling with the same keys) is the instance kappa = identity *)
+Theorem C15_recase_invariance :
+  forall (rho : varname -> varname) prof fuel p c,
+    (forall n, lower_name (rho n) = lower_name n) ->
+    xres_rel rho (fun k => k) eq (exec_program prof fuel p c) (exec_program prof fuel (rn_program rho p) c).
+Proof. exact recase_invariance. Qed.
+
+(** a renaming that is not a re-casing and satisfies the hypotheses: exchanging two names *)
+Theorem C15_swap_invariance :
+  forall a b prof fuel p c,
+    xres_rel (swap_name a b) (swap_key a b) eq
+             (exec_program prof fuel p c) (exec_program prof fuel (rn_program (swap_name a b) p) c).
+Proof. exact swap_invariance. Qed.
+
 Example C15_example :
   lower_name (Common (lit "My") (lit "HEART")) = lower_name (Common (lit "my") (lit "heart")) /\
   lower_name (Simple [201; 84; 201]%N) = lower_name (Simple [233; 116; 233]%N) /\
@@ -44,3 +88,5 @@ Example C15_example :
 Proof. vm_compute. repeat split; reflexivity. Qed.
 
 Print Assumptions C15_lower_name_is_fold.
+Print Assumptions C15_rename_invariance.
+Print Assumptions C15_swap_invariance.
